@@ -84,6 +84,28 @@ def run(res, b, tier, seed):
                 evaluations += 1
                 if got != ref[(i, t)]:
                     fails.append(("fresh-process", i, t, got))
+    # (a') the working directory of the process has entries named like the imports of the programs (a directory `strings`, files
+    #      `lib.tsh`, `lib1.tsh`, ... with other content): nothing but the source files and the std directory next to the executable may
+    #      matter (round 7: C14-9, the local-or-std decision made with the import path as written, i.e. against the working directory)
+    cwd = tempfile.mkdtemp(prefix="tshcwd-")
+    try:
+        os.makedirs(os.path.join(cwd, "strings"))
+        os.makedirs(os.path.join(cwd, "std", "strings"))
+        for nm in ("os", "lib.tsh", "lib1.tsh", "lib2.tsh", "lib3.tsh", "strings.tsh", "main.tsh"):
+            with open(os.path.join(cwd, nm), "w") as fh:
+                fh.write("this is not a TypeShell file {{{\n")
+        again = [pipeline.Case(c.id, c.files, c.main) for c in progs]
+        pipeline.run_pipe(b, again, "sw", cwd=cwd)
+        byid = {c.id: c for c in again}
+        for i, c in enumerate(progs):
+            for t, key in (("bash", "BASH"), ("batch", "BATCH")):
+                cls, payload = byid[c.id].out.get(key, ("MISSING", ""))
+                got = "OK " + payload if cls == "OK" else "ERR" if cls == "ERR" else cls
+                evaluations += 1
+                if got != ref[(i, t)]:
+                    fails.append(("working-directory-with-entries-named-like-the-imports", i, t, got))
+    finally:
+        shutil.rmtree(cwd, ignore_errors=True)
     # (b) interleaved histories on one transpiler object, in relocated work directories
     nh = 20 if quick else 300
     directed = [[(i, t1), (j, t2)] for i in range(inter0, inter1) for j in range(inter0, inter1) if i != j
